@@ -29,6 +29,8 @@ NOT_PROVED = ["IEEE rounding of the interpolation/trapezoid pipeline (measured, 
               "replaced by prefix equality + trimmed equality + constant tail one sample later (proved)"]
 
 
+PROP_MODULES = ['C19', 'C19Gen']
+
 def _err(res):
     """SignalProcessingWarning has no ErrKind on the wire: the model reports Other"""
     if res[0] == 'err' and res[1].startswith('Other'):
@@ -597,4 +599,57 @@ def run(ctx):
                 res = call_impl(tsh.time_indices, npts, dt, start, end, True)
                 ctx.corr('time_indices', f"time_indices|{npts}|{w_rat(dt)}|{start}|{end}|T", _err(res),
                          lambda outs, val: cmp_exact(list(val), p_rats(outs[0])), inputs={'npts': npts, 'dt': dt, 'start': start, 'end': end})
+    ctx.flush()
+
+
+# ---- extras (round-3 lessons): large grids ---------------------------------------------------------------------------------------------
+
+def extras(ctx):
+    """LARGE batches (record length x travel times beyond 2^20, 2^21 grid points): every row of a batch still equals the result for that
+    travel time alone, bit for bit, for the energy and for the delayed waves; option jtype of the join wrapper is forwarded"""
+    import eqsig
+    from eqsig import surface as sf
+    rng = ctx.rng
+    for n, m in ([(30000, 40)] if ctx.tier == 'quick' else [(30000, 40), (9000, 130), (60000, 37), (2500, 900)]):
+        dt = 0.01
+        a = gen.noise_record(rng, n) * np.exp(-((np.arange(n) - n / 4) / (n / 6)) ** 2)
+        tts = np.sort(np.array([rng.uniform(0.0, 0.4) for _ in range(m)]))
+        inputs = {'a': f'noise x envelope, n={n} (seeded)', 'dt': dt, 'travel_times': f'{m} values in [0, 0.4) (seeded, sorted)', 'grid': n * m}
+        ctx.hist(f'large-batch/{n}x{m}')
+        ctx.count_case(('large', n, m), True, sample={'fn': 'calc_surface_energy (large batch)', **inputs})
+        for tr in (True, False):
+            b = call_impl(sf.calc_surface_energy, eqsig.AccSignal(a.copy(), dt), tts.copy(), nodal=True, up_red=1.0, down_red=0.9, trim=tr)
+            if b[0] != 'ok':
+                ctx.oracle('C19.d large batch returns', False, {**inputs, 'trim': tr}, detail=b)
+                continue
+            rows = sorted(set([0, m - 1, m - 2, m // 2] + [rng.randrange(m) for _ in range(4)]))
+            bad = None
+            for i in rows:
+                srow = np.asarray(sf.calc_surface_energy(eqsig.AccSignal(a.copy(), dt), np.array([tts[i]]), nodal=True, up_red=1.0, down_red=0.9, trim=tr))
+                brow = np.asarray(b[1])[i]
+                srow = srow.reshape(-1)
+                if not (len(srow) <= len(brow) and np.array_equal(brow[:len(srow)], srow)):
+                    bad = {'row': i, 'travel_time': float(tts[i]), 'max|batch row|': float(np.max(np.abs(brow))), 'max|single|': float(np.max(np.abs(srow)))}
+                    break
+            ctx.oracle('C19.d row i of a LARGE batch equals the single-travel-time result on their common length (==)', bad is None, {**inputs, 'trim': tr}, detail=bad)
+        g = call_impl(sf.get_time_shift_motions, eqsig.AccSignal(a.copy(), dt), tts.copy(), nodal=True, up_red=1.0, down_red=0.9)
+        if g[0] == 'ok':
+            bad = None
+            G = np.asarray(g[1])
+            for i in sorted(set([0, m - 1, m - 2, m // 2])):
+                s1 = np.asarray(sf.get_time_shift_motions(eqsig.AccSignal(a.copy(), dt), np.array([tts[i]]), nodal=True, up_red=1.0, down_red=0.9)).reshape(-1)
+                brow = G[i] if G.ndim == 2 else G
+                L = min(len(brow), len(s1))
+                if G.ndim != 2 or G.shape[0] != m or not np.array_equal(brow[:L], s1[:L]):
+                    bad = {'row': i, 'batch_shape': G.shape}
+                    break
+            ctx.oracle('C19.d the motions of row i of a LARGE batch equal those of the single travel time on their common length (==)', bad is None, inputs, detail=bad)
+
+
+_run_main = run
+
+
+def run(ctx):
+    _run_main(ctx)
+    extras(ctx)
     ctx.flush()
